@@ -19,6 +19,7 @@ the calls whose C++ preconditions hold (the model returns `.error` otherwise).
 -/
 import SharkVerif.Lemmas.BatchArith
 import SharkVerif.Lemmas.Dataset
+import SharkVerif.Lemmas.IterAdvance
 namespace SharkVerif.C03
 open SharkVerif.CheckedNat SharkVerif.Gen.BatchArith SharkVerif.BatchArith SharkVerif.Dataset
 
@@ -313,6 +314,18 @@ theorem iter_inc_dec_inverse (sizes : List Nat) (hne : allPos sizes) (p : Nat) (
 theorem iter_advance_from_begin (d : Data ε) (hne : allPos d.partitioning) (i : Nat) (hi : i < d.flat.length) :
     d.container.elementAt i = d.flat[i]? := elementAt_eq_flat d hne i hi
 
+/-- **iter_advance_correct**: for every partition into non-empty batches, every position `p ≤ total` and every
+signed distance `n` with `0 ≤ p + n ≤ total`, `it += n` started on the canonical (batch, offset) of `p` lands on
+the canonical (batch, offset) of `p + n` (crossing any number of batch borders in either direction), and
+dereferencing there yields element `p + n` of the flat sequence -/
+theorem iter_advance_correct (d : Data ε) (hne : allPos d.partitioning) (p : Nat) (hp : p ≤ d.flat.length) (n : Int)
+    (h0 : 0 ≤ (p : Int) + n) (h1 : (p : Int) + n ≤ d.flat.length) :
+    Iter.advance d.partitioning (canon d.partitioning p) n = some (canon d.partitioning ((p : Int) + n).toNat) ∧
+    (((p : Int) + n).toNat < d.flat.length →
+      d.container.deref (canon d.partitioning ((p : Int) + n).toNat) = d.flat[((p : Int) + n).toNat]?) := by
+  have hs := d.sum_partitioning
+  refine ⟨advance_canon d.partitioning hne p (by omega) n h0 (by omega), fun hq => deref_canon d _ hq⟩
+
 /-! ## D. LabeledData: same partitioning, pairs never separated -/
 
 /-- inputs and labels are partitioned identically -/
@@ -534,6 +547,7 @@ example : createDataFromRange [1, 2, 3, 4, 5] 2 [] = .ok (⟨[[1, 2], [3, 4], [5
 example : (⟨[[1, 2], [3]], []⟩ : Data Nat).repartition [1, 2] = .ok ⟨[[1], [2, 3]], []⟩ := by rfl
 example : (⟨[[1, 2], [3]], []⟩ : Data Nat).splitBatch 0 1 = .ok ⟨[[1], [2], [3]], []⟩ := by rfl
 example : (⟨[[1, 2], [3]], []⟩ : Data Nat).reorderElements [2, 0, 1] = .ok ⟨[[3, 1], [2]], []⟩ := by rfl
+example : Iter.advance [2, 3, 1] (canon [2, 3, 1] 5) (-4) = some (canon [2, 3, 1] 1) := by decide
 example : allPos (⟨[[1, 2], [3]], []⟩ : Data Nat).partitioning := by intro s hs; simp [Data.partitioning] at hs; omega
 example : Inv (⟨⟨[[1, 2], [3]], []⟩, ⟨[[7, 8], [9]], []⟩⟩ : LabeledData Nat Nat) :=
   ⟨rfl, by intro s hs; simp [Data.partitioning] at hs; omega⟩
